@@ -221,6 +221,9 @@ def spec_array(eng, st, name):
     a = ArrV((nf,), lambda ix: spec_value(eng, eng.pst, name, ix[0]), "cx" if isinstance(probe, Cx) else "real")
     if ATTR[name][1] == "UNWRAP":
         a.is_unwrap = True
+    # the array handed out for another attribute is the cached object itself: it must never be written
+    real = eng.cur_state
+    real.tags["attr_bufs"] = frozenset(real.tags.get("attr_bufs", frozenset())) | a.bufs
     return eng.alloc(st, a)
 
 
@@ -292,6 +295,9 @@ def install(eng):
             obj = st.heap[ref.loc]
             if isinstance(obj, ArrV) and (obj.bufs & bufs):
                 eng_.oblige(st, "frame", f"result_arrays_not_written:{label}", False)
+            abufs = st.tags.get("attr_bufs", frozenset())
+            if isinstance(obj, ArrV) and (obj.bufs & abufs):
+                eng_.oblige(st, "frame", f"C14.cached_attribute_arrays_not_written:{label}", False)
         if prev_fw:
             prev_fw(eng_, st, ref, label)
 
@@ -344,7 +350,7 @@ def make_unit(name, iscsd):
     mode, text = ent[0], ent[1]
     need_coh = len(ent) > 2 and ent[2] and iscsd
     applies = not ((mode == "auto" and iscsd) or (mode == "cross" and not iscsd))
-    props = sorted(set(PROPS_OF.get(name, ["C20"]) + ALWAYS + ["C20"]))
+    props = sorted(set(PROPS_OF.get(name, ["C20"]) + ALWAYS + ["C20"] + (["C09"] if iscsd else [])))
     ens = {}
     if not applies:
         ens["C20.not_applicable_is_None"] = "result is None"
@@ -630,3 +636,42 @@ for _u in UNITS:
         _isc = _md == "cross"
         _need = len(ATTR[_nm]) > 2 and ATTR[_nm][2] and _isc
         _u.runtime = dict(sample=_rt_sample(_nm, _isc, _need), call=_rt_call(_nm, _isc), env=_rt_env(_nm, _isc), from_model=_rt_from_model(_nm, _isc), n_quick=6, n_thorough=60, n_search=200, skip_ensures=("C20.shape",), scale=lambda args, result: 10.0)  # sqrt(|1-coh|) at coh==1 amplifies rounding to ~1e-8
+
+
+
+def bounded_access_order(tier, seed):
+    """C14/C09/C20 stand-in (bounded): every lazily computed attribute has the same value whatever the
+    order of first access (cached arrays are never modified by later accesses)"""
+    import numpy as np
+    from speckit import compute_spectrum
+
+    rng = np.random.default_rng(seed)
+    N = 3000
+    x = rng.normal(size=N)
+    y = 0.6 * np.roll(x, 2) + rng.normal(size=N)
+    names = list(ATTR)
+    fails, n = [], 0
+    for data, tag in (([x, y], "cross"), (x, "auto")):
+        ref = None
+        for trial in range(3 if tier == "quick" else 12):
+            res = compute_spectrum(data, 10.0, olap=0.5, Jdes=20, Kdes=10, scheduler="ltf", win="hann")
+            order = list(rng.permutation(names)) if trial else list(names)
+            for nm in order:
+                getattr(res, nm)
+            if trial == 1:
+                res.to_dataframe()
+            vals = {nm: (None if getattr(res, nm) is None else np.array(getattr(res, nm), copy=True)) for nm in names}
+            n += 1
+            if ref is None:
+                ref = vals
+                continue
+            for nm in names:
+                a, b = ref[nm], vals[nm]
+                if (a is None) != (b is None) or (a is not None and not np.array_equal(a, b, equal_nan=True)):
+                    fails.append({"label": "C14.access_order", "input": {"mode": tag, "attribute": nm, "order_prefix": [str(o) for o in order[:6]]}, "detail": "attribute value depends on the order of first access"})
+                    break
+    return {"evaluations": n, "bound": "auto and cross result, 3 (12) random access orders of all 45 attributes", "failures": fails[:5], "n_failures": len(fails)}
+
+
+BOUNDED = {"C14.access_order": bounded_access_order}
+PROPERTY_INFO = {"C09": {"bounded": ["C14.access_order"]}, "C14": {"bounded": ["C14.access_order"]}, "C20": {"bounded": ["C14.access_order"]}}
